@@ -61,7 +61,14 @@ def main():
                 if not resolved:
                     print("%s: CONFLICT, left alone: %s" % (entry, conflicts[-200:]))
                     continue
-                print("%s: conflict resolved by keeping both sides - RE-VERIFY" % entry)
+                # keeping both sides can leave the original statement in front of the changed one: only trust the merge
+                # when the demonstration of the change still fails on the merged tree
+                demo = next((os.path.join(base, entry, n) for n in sorted(os.listdir(os.path.join(base, entry)))
+                             if n.startswith("demo") and n.endswith(".py")), None)
+                if demo is None or run(["/venv/bin/python", "-W", "ignore", demo, tree]).returncode == 0:
+                    print("%s: CONFLICT (kept both sides, but the demonstration no longer fails), left alone" % entry)
+                    continue
+                print("%s: conflict resolved by keeping both sides, demonstration still fails" % entry)
             elif merged.returncode != 0:
                 print("%s: does not merge, left alone: %s" % (entry, merged.stdout[-200:]))
                 continue
